@@ -1,10 +1,16 @@
-"""C04 -- grouping partitions the rows; one summary row per distinct key."""
+"""C04 -- grouping partitions the rows; one summary row per distinct key.
+
+All structural rules are written as patterns with metavariables (sa/pattern.py), so
+renaming locals or receivers does not change a verdict; what is related is *which
+variable flows where* (the frame an index was created on is the frame it is applied
+to), not what the variables are called.
+"""
 import ast
 from ..common import interp, ours, calls_in, norm, DF, kw
 from ..model import AnalysisError, body_nodes
-from ..cfg import cfg_of
-from ..facts import facts_at, cfg_node_of
+from ..facts import facts_at
 from ..dataflow import defs_reaching
+from ..pattern import pmatch, pstmt, find, text, dump
 from .shared import grd_empty
 from .. import aggfeat as A
 
@@ -25,6 +31,28 @@ ASSUMPTIONS = ["np.split(v, points) cuts v before each point; np.repeat(arange(k
                "np.lexsort is stable"]
 
 
+def ordered_stmts(fn):
+    return sorted((n for n in body_nodes(fn.node) if isinstance(n, ast.stmt)), key=lambda n: (n.lineno, n.col_offset))
+
+
+def first_stmt(fn, pattern, env=None):
+    for s in ordered_stmts(fn):
+        b = pstmt(pattern, s, dict(env or {}))
+        if b is not None:
+            return s, b
+    return None, None
+
+
+def first_expr(fn, pattern, env=None):
+    for s in ordered_stmts(fn):
+        for n in ast.walk(s):
+            if isinstance(n, ast.expr):
+                b = pmatch(pattern, n, dict(env or {}))
+                if b is not None:
+                    return n, b
+    return None, None
+
+
 def check(ctx):
     repo = ctx.repo
     I = interp(repo)
@@ -39,29 +67,153 @@ def check(ctx):
     sp = repo.fn(f"{DF}.split")
     md = repo.fn(f"{DF}.modify")
     cn = repo.fn(f"{DF}.count")
-    # ---------------------------------------------------------------- IDX-2
-    for fn, keyvar in ((ag, "group_colnames"), (sp, sp.vararg)):
-        sorts = [c for _, c in calls_in(fn) if isinstance(c.func, ast.Attribute) and c.func.attr == "sort"]
-        uniqs = [c for _, c in calls_in(fn) if isinstance(c.func, ast.Attribute) and c.func.attr == "unique"]
-        sels = [c for _, c in calls_in(fn) if isinstance(c.func, ast.Attribute) and c.func.attr == "select"]
-        ok = len(sorts) == 1 and norm(sorts[0].args[0] if sorts[0].args else sorts[0].keywords[0].value) == f"dict.fromkeys({keyvar}, 1)" \
-            if sorts and (sorts[0].args or sorts[0].keywords) else False
-        ctx.ob("IDX-2", fn, norm(sorts[0]) if sorts else "sort(**dict.fromkeys(keys, 1))", sorts[0] if sorts else fn.node, ok,
-               "rows are sorted ascending by exactly the group keys" if ok else
-               "the frame is not sorted ascending by exactly the group keys", clause="ordered ascending by the group columns")
-        ok = len(uniqs) == 1 and [norm(a) for a in uniqs[0].args] == [f"*{keyvar}"]
-        ctx.ob("IDX-2", fn, norm(uniqs[0])[:80] if uniqs else "unique(*keys)", uniqs[0] if uniqs else fn.node, ok,
-               "group starts are the first rows per key combination of the same keys" if ok else
-               "group boundaries are not found with unique(*same keys)", clause="exactly one row per distinct combination")
-        if fn is ag:
-            ok = len(sels) >= 1 and [norm(a) for a in sels[0].args] == ["'_index_'", f"*{keyvar}"]
-            ctx.ob("IDX-2", fn, norm(sels[0])[:80] if sels else "select('_index_', *keys)", sels[0] if sels else fn.node, ok,
-                   "summary frame starts from the key columns plus the group start index" if ok else
-                   "summary frame is not built from select('_index_', *keys)", nontrivial=False)
-            defs = [n for n in body_nodes(fn.node) if isinstance(n, ast.Assign) and norm(n.targets[0]) == keyvar]
-            ok = len(defs) == 1 and norm(defs[0].value) == f"{fn.params[0]}._group_colnames"
-            ctx.ob("IDX-2", fn, norm(defs[0]) if defs else "group_colnames = self._group_colnames", defs[0] if defs else fn.node, ok,
-                   "keys are the receiver's grouping" if ok else "keys are not taken from self._group_colnames", nontrivial=False)
+    S = ag.params[0]
+    # ----------------------------------------------------------- aggregate
+    s_key, bk = first_stmt(ag, f"_K = {S}._group_colnames")
+    K = bk["_K"] if bk else None
+    ctx.ob("IDX-2", ag, text(s_key) if s_key else "keys = self._group_colnames", s_key or ag.node, K is not None,
+           "keys are the receiver's grouping" if K is not None else "the group keys are not taken from self._group_colnames", nontrivial=False)
+    env = {"_K": K} if K is not None else {}
+    s_sort, b1 = first_stmt(ag, f"_D = {S}.sort(**dict.fromkeys(_K, 1))", env)
+    ctx.ob("IDX-2", ag, text(s_sort) if s_sort else "data = self.sort(**dict.fromkeys(keys, 1))", s_sort or ag.node, b1 is not None,
+           "rows are sorted ascending by exactly the group keys" if b1 is not None else
+           "the frame is not sorted ascending by exactly the group keys", clause="ordered ascending by the group columns")
+    if b1 is None:
+        # reported above; continue with whatever frame is sorted so that the remaining rules can still speak
+        s_sort, b1 = first_stmt(ag, "_D = __.sort(**__)")
+        if b1 is None:
+            raise AnalysisError("DataFrame.aggregate: no sorted working frame at all; the index-space rules cannot be instantiated")
+    env.update(_D=b1["_D"])
+    s_idx, b2 = first_stmt(ag, "_D._index_ = np.arange(_D.nrow)", env)
+    s_uq, b3 = first_stmt(ag, "_S = _D.unique(*_K).select('_index_', *_K)", env)
+    ctx.ob("IDX-2", ag, text(s_uq) if s_uq else "stat = data.unique(*keys).select('_index_', *keys)", s_uq or ag.node, b3 is not None,
+           "group starts are the first rows per key combination of the same keys, kept with their start index" if b3 is not None else
+           "group boundaries are not found with unique(*same keys).select('_index_', *same keys) on the sorted frame",
+           clause="exactly one row per distinct combination")
+    if b3 is not None:
+        env.update(_S=b3["_S"])
+    s_split, b4 = first_stmt(ag, "_I = np.split(_D._index_, _S._index_[1:])", env) if b3 is not None else (None, None)
+    ctx.ob("IDX-3", ag, text(s_split) if s_split else "indices = np.split(data._index_, stat._index_[1:])", s_split or ag.node, b4 is not None,
+           "sorted positions are cut at every group start but the first" if b4 is not None else
+           "np.split does not cut the sorted frame's own index at the group starts [1:]", clause="one summary row per distinct key")
+    order = [s_sort, s_idx, s_uq, s_split]
+    ok = all(x is not None for x in order) and [x.lineno for x in order] == sorted(x.lineno for x in order) \
+        and len({x.lineno for x in order}) == 4
+    ctx.ob("IDX-3", ag, "sort; attach _index_; unique; np.split", s_idx or ag.node, ok,
+           "the index is attached to the sorted frame (arange of ITS nrow) before group starts are taken" if ok else
+           "the order sort -> attach index (arange of the sorted frame's nrow) -> unique -> split is broken: group slices index "
+           "another row order", clause="each summary is computed from exactly the rows of that group")
+    vr = [c for _, c in calls_in(ag) if isinstance(c.func, ast.Attribute) and c.func.attr == "_view_rows"]
+    ok = bool(vr) and all(dump(c.func.value) == dump(env["_D"]) for c in vr)
+    if ok and b4 is not None:
+        # the rows handed to _view_rows are the pieces of the split
+        ok = all(any(isinstance(g, ast.comprehension) and dump(g.iter) == dump(b4["_I"]) for g in ast.walk(ag.node)) for c in vr)
+    ctx.ob("IDX-3", ag, f"{[text(c) for c in vr]}", vr[0] if vr else ag.node, ok,
+           "group slices are views of the sorted frame, taken with the pieces of its own index" if ok else
+           "group slices are taken from another frame than the one the indices refer to", clause="exactly the rows of that group")
+    # group labels
+    s_g, bg = first_stmt(ag, "_D._group_ = np.repeat(_G, _N)", env)
+    ok, why = False, "data._group_ is never assigned as np.repeat(labels, sizes)"
+    if bg is not None and b4 is not None:
+        e2 = dict(env, _I=b4["_I"], _G=bg["_G"], _N=bg["_N"])
+        _, g1 = first_stmt(ag, "_G = Vector.fast(range(len(_I)), int)", e2)
+        _, g2 = first_stmt(ag, "_N = Vector.fast(map(len, _I), int)", e2)
+        facts = facts_at(ag, s_g)
+        guarded = any(k == "T" and t.startswith("any(") for k, t in facts)
+        ok = g1 is not None and g2 is not None and guarded
+        why = ("group ids = repeat(arange(#groups), sizes of the same index pieces), assigned whenever a group-aware function is present"
+               if ok else f"labels/sizes are not both derived from the split pieces, or the assignment is not under any(group_aware) ({sorted(facts)})")
+    ctx.ob("MPT-3", ag, text(s_g) if s_g else "data._group_ = np.repeat(groups, n)", s_g or ag.node, ok, why,
+           clause="contiguous-run scan in helpers")
+    # calling group-aware functions with the sorted frame, under the group_aware test
+    fcalls = [(n, b) for n, b in find("_FN(_D)", ag.node, env) if isinstance(b["_FN"], ast.Name)]
+    ok = bool(fcalls)
+    for n, b in fcalls:
+        f2 = facts_at(ag, n)
+        if not any(k == "T" and "group_aware" in t and text(b["_FN"]) in t for k, t in f2):
+            ok = False
+    ctx.ob("MPT-3", ag, f"{[text(n) for n, _ in fcalls]}", fcalls[0][0] if fcalls else ag.node, ok,
+           "a function receives the whole sorted frame only if it declares group_aware" if ok else
+           "a function is called with the whole frame without being tested for group_aware", clause="group-aware protocol")
+    rep_ok = False
+    for n, b in find("_C[_J]", ag.node):
+        par = ag.module.parent.get(n)
+        if isinstance(par, ast.Assign) and par.targets[0] is n and isinstance(par.value, ast.Name):
+            f2 = facts_at(ag, par)
+            if any(k == "T" and t == f"{text(n)} is None" for k, t in f2):
+                dv = [d.value for d in defs_reaching(ag, par.value.id, par) if d.value is not None]
+                if dv and all(isinstance(v, ast.Attribute) and v.attr == "default" for v in dv):
+                    rep_ok = True
+    ctx.ob("MPT-3", ag, "None -> function.default", ag.node, rep_ok,
+           "None left by a helper is replaced by that helper's default" if rep_ok else "None results are not replaced by function.default",
+           clause="a group left with fewer elements yields the documented default")
+    rets = [n for n in body_nodes(ag.node) if isinstance(n, ast.Return)]
+    ok = len(rets) == 1 and b3 is not None and pmatch("_S.unselect('_index_', '_group_')", rets[0].value, env) is not None
+    ctx.ob("MPT-3", ag, text(rets[0].value) if rets else "return", rets[0] if rets else ag.node, ok,
+           "helper columns are removed from the result" if ok else "result still carries (or wrongly removes) helper columns", nontrivial=False)
+    asserts = [n for n in body_nodes(ag.node) if isinstance(n, ast.Assert)]
+    ok = b3 is not None and any(pmatch("len(__) == _S.nrow", a.test, env) is not None for a in asserts)
+    ctx.ob("MPT-3", ag, "assert len(column) == stat.nrow", asserts[0] if asserts else ag.node, ok,
+           "one summary value per group" if ok else "no check that a helper returned one value per group", nontrivial=False)
+    # ---------------------------------------------------------------- split
+    P = sp.params[0]
+    BY = sp.vararg
+    s1, c1 = first_stmt(sp, f"_D = {P}.select(*{BY})")
+    if c1 is None:
+        raise AnalysisError("DataFrame.split: cannot find the working frame data = self.select(*by)")
+    e = {"_D": c1["_D"]}
+    s2, c2 = first_stmt(sp, "_D._index_ = np.arange(_D.nrow)", e)
+    s3, c3 = first_stmt(sp, f"_D = _D.sort(**dict.fromkeys({BY}, 1))", e)
+    s4, c4 = first_stmt(sp, "_D._sorted_index_ = np.arange(_D.nrow)", e)
+    s5, c5 = first_stmt(sp, f"_S = _D.unique(*{BY})", e)
+    seq = [s1, s2, s3, s4, s5]
+    ok = all(x is not None for x in seq) and [x.lineno for x in seq] == sorted({x.lineno for x in seq})
+    ctx.ob("IDX-3", sp, "select; _index_; sort; _sorted_index_; unique", s2 or sp.node, ok,
+           "original positions are attached before, split points after the sort, on the same working frame" if ok else
+           "split attaches its index columns in the wrong order relative to the sort (or on another frame): the returned index sets are "
+           "positions in the sorted frame, not in the caller's frame", clause="split returns disjoint index sets covering every row")
+    ctx.ob("IDX-2", sp, text(s3) if s3 else "data = data.sort(**dict.fromkeys(by, 1))", s3 or sp.node, c3 is not None,
+           "rows are sorted ascending by exactly the given keys" if c3 is not None else "split does not sort ascending by exactly its keys",
+           clause="the same partition")
+    ctx.ob("IDX-2", sp, text(s5) if s5 else "stat = data.unique(*by)", s5 or sp.node, c5 is not None,
+           "group starts by the same keys" if c5 is not None else "split's group boundaries are not unique(*same keys)", clause="the same partition")
+    rets = [n for n in body_nodes(sp.node) if isinstance(n, ast.Return)]
+    ok = len(rets) == 1 and c5 is not None and pmatch("np.split(_D._index_, _S._sorted_index_[1:])", rets[0].value, dict(e, _S=c5["_S"])) is not None
+    ctx.ob("IDX-3", sp, text(rets[0].value) if rets else "return np.split(...)", rets[0] if rets else sp.node, ok,
+           "original positions (in sorted order), cut at the sorted group starts" if ok else
+           "split does not return np.split(original positions in sorted order, sorted group starts[1:])",
+           clause="disjoint index sets covering every row")
+    # ------------------------------------------------------- grouped modify
+    M = md.params[0]
+    sl, bsl = first_stmt(md, f"_SL = {M}.split(*{M}._group_colnames)")
+    ctx.ob("IDX-3", md, text(sl) if sl else "slices = self.split(*self._group_colnames)", sl or md.node, bsl is not None,
+           "grouped modify partitions the receiver by its own grouping" if bsl is not None else
+           "grouped modify does not take its partition from self.split(*self._group_colnames)", clause="grouped modify uses the same partition")
+    if bsl is not None:
+        em = {"_SL": bsl["_SL"]}
+        ro, bro = first_stmt(md, "_RI = np.argsort(np.concatenate(_SL))", em)
+        ctx.ob("OWN-3", md, text(ro) if ro else "restore = np.argsort(np.concatenate(slices))", ro or md.node, bro is not None,
+               "the inverse permutation of the concatenated group indices restores the original row order" if bro is not None else
+               "grouped modify does not compute argsort(concatenate(slices)) to restore the original order",
+               clause="group-wise results aligned with the original row order")
+        vr = [c for _, c in calls_in(md) if isinstance(c.func, ast.Attribute) and c.func.attr == "_view_rows"]
+        ok = bool(vr) and all(text(c.func.value) == M for c in vr)
+        ctx.ob("IDX-3", md, f"{[text(c) for c in vr]}", vr[0] if vr else md.node, ok,
+               "original-position index sets from split are applied to the receiver itself" if ok else
+               "grouped modify applies split's index sets to another frame", clause="grouped modify uses the same partition")
+        if bro is not None:
+            ys = [n for n in body_nodes(md.node) if isinstance(n, ast.Yield) and n.value is not None
+                  and pmatch("(__, np.concatenate(__)[_RI])", n.value, {"_RI": bro["_RI"]}) is not None]
+            ok = bool(ys) and ro.lineno < ys[0].lineno
+            ctx.ob("OWN-3", md, text(ys[0].value) if ys else "yield colname, np.concatenate(column)[restore]", ys[0] if ys else md.node, ok,
+                   "group results are concatenated in group order and permuted back" if ok else
+                   "grouped results are yielded without being permuted back to the original row order",
+                   clause="group-wise results aligned with the original row order")
+    bc = [c for _, c in calls_in(md) if repo.dotted(md, c.func) == "dataiter.data_frame.DataFrameColumn" and kw(c, "nrow") is not None]
+    ok = bool(bc) and pmatch("DataFrameColumn(__(_X), nrow=_X.nrow)", bc[0]) is not None
+    ctx.ob("IDX-3", md, text(bc[0]) if bc else "DataFrameColumn(function(x), nrow=x.nrow)", bc[0] if bc else md.node, ok,
+           "a scalar group result is broadcast to its own group's size" if ok else "group results are not broadcast to the group's row count", nontrivial=False)
+    # ------------------------------------- only ordering primitive: lexsort
     srt = repo.fn(f"{DF}.sort")
     extra = []
     for f in [srt] + list(srt.nested.values()):
@@ -69,134 +221,30 @@ def check(ctx):
             d = repo.dotted(f, c.func)
             if d in ("numpy.argsort", "numpy.sort", "builtins.sorted") or (isinstance(c.func, ast.Attribute) and c.func.attr in ("argsort",) and d is None):
                 extra.append(c)
-    ctx.ob("IDX-2", srt, f"ordering primitives besides np.lexsort: {[norm(c) for c in extra] or 'none'}", extra[0] if extra else srt.node, not extra,
+    ctx.ob("IDX-2", srt, f"ordering primitives besides np.lexsort: {[text(c) for c in extra] or 'none'}", extra[0] if extra else srt.node, not extra,
            "rows inside a group keep their original order: the only ordering is the stable np.lexsort" if not extra else
-           f"{norm(extra[0])} orders rows without a stable kind: rows of one group no longer keep their original relative order, so "
+           f"{text(extra[0])} orders rows without a stable kind: rows of one group no longer keep their original relative order, so "
            f"first/last/nth and order-sensitive lambdas change", clause="the rows of that group taken in their original order")
-    # ---------------------------------------------------------------- IDX-3
-    def stmt_index(fn, pred):
-        for i, s in enumerate(fn.node.body):
-            if pred(s):
-                return i, s
-        return None, None
-    def is_assign_attr(s, attr):
-        return isinstance(s, ast.Assign) and isinstance(s.targets[0], ast.Attribute) and s.targets[0].attr == attr
-    # aggregate: sort -> attach index -> unique -> split
-    i_sort, s_sort = stmt_index(ag, lambda s: isinstance(s, ast.Assign) and ".sort(" in norm(s.value))
-    i_idx, s_idx = stmt_index(ag, lambda s: is_assign_attr(s, "_index_"))
-    i_uq, s_uq = stmt_index(ag, lambda s: isinstance(s, ast.Assign) and ".unique(" in norm(s.value))
-    i_split, s_split = stmt_index(ag, lambda s: isinstance(s, ast.Assign) and "np.split(" in norm(s.value))
-    ok = None not in (i_sort, i_idx, i_uq, i_split) and i_sort < i_idx < i_uq < i_split
-    ctx.ob("IDX-3", ag, "sort; attach _index_; unique; np.split", s_idx or ag.node, bool(ok),
-           "the index is attached to the sorted frame before group starts are taken" if ok else
-           "the order sort -> attach index -> unique -> split is broken: group slices index another row order",
-           clause="each summary is computed from exactly the rows of that group")
-    if s_idx is not None and s_sort is not None:
-        frame = norm(s_idx.targets[0].value)
-        ok = norm(s_idx.value) == f"np.arange({frame}.nrow)" and norm(s_sort.targets[0]) == frame
-        ctx.ob("IDX-3", ag, norm(s_idx), s_idx, ok, "index counts the rows of the sorted frame" if ok else
-               "_index_ is not arange(nrow) of the sorted frame", clause="group sizes sum to nrow")
-    if s_split is not None:
-        c = s_split.value
-        ok = isinstance(c, ast.Call) and len(c.args) == 2 and norm(c.args[0]) == "data._index_" and norm(c.args[1]) == "stat._index_[1:]"
-        ctx.ob("IDX-3", ag, norm(s_split), s_split, ok, "sorted positions are cut at every group start but the first" if ok else
-               "np.split does not cut the sorted frame's index at the group starts [1:]", clause="one summary row per distinct key")
-    vr = [c for _, c in calls_in(ag) if isinstance(c.func, ast.Attribute) and c.func.attr == "_view_rows"]
-    ok = bool(vr) and all(norm(c.func.value) == "data" for c in vr)
-    ctx.ob("IDX-3", ag, f"{[norm(c) for c in vr]}", vr[0] if vr else ag.node, ok,
-           "group slices are views of the sorted frame, which their indices refer to" if ok else
-           "group slices are taken from another frame than the one the indices refer to", clause="exactly the rows of that group")
-    # split: select -> attach _index_ -> sort -> attach _sorted_index_ -> unique -> np.split
-    i_sel, _ = stmt_index(sp, lambda s: isinstance(s, ast.Assign) and ".select(" in norm(s.value))
-    i_i, s_i = stmt_index(sp, lambda s: is_assign_attr(s, "_index_"))
-    i_s, _ = stmt_index(sp, lambda s: isinstance(s, ast.Assign) and ".sort(" in norm(s.value))
-    i_si, s_si = stmt_index(sp, lambda s: is_assign_attr(s, "_sorted_index_"))
-    i_u, _ = stmt_index(sp, lambda s: isinstance(s, ast.Assign) and ".unique(" in norm(s.value))
-    ok = None not in (i_sel, i_i, i_s, i_si, i_u) and i_sel < i_i < i_s < i_si < i_u
-    ctx.ob("IDX-3", sp, "select; _index_; sort; _sorted_index_; unique", s_i or sp.node, bool(ok),
-           "original positions are attached before, split points after the sort" if ok else
-           "split attaches its index columns in the wrong order relative to the sort: the returned index sets are positions in the "
-           "sorted frame, not in the caller's frame", clause="split returns disjoint index sets covering every row")
-    rets = [n for n in body_nodes(sp.node) if isinstance(n, ast.Return)]
-    ok = len(rets) == 1 and norm(rets[0].value) == "np.split(data._index_, stat._sorted_index_[1:])"
-    ctx.ob("IDX-3", sp, norm(rets[0].value) if rets else "return np.split(...)", rets[0] if rets else sp.node, ok,
-           "original positions, cut at the sorted group starts" if ok else
-           "split does not return np.split(original positions in sorted order, sorted group starts[1:])",
-           clause="disjoint index sets covering every row")
-    for s in (s_i, s_si):
-        if s is not None:
-            ok = norm(s.value) == f"np.arange({norm(s.targets[0].value)}.nrow)"
-            ctx.ob("IDX-3", sp, norm(s), s, ok, "row counter of that frame" if ok else "index column is not arange(nrow)", nontrivial=False)
-    # grouped modify
-    ro = [n for n in body_nodes(md.node) if isinstance(n, ast.Assign) and "argsort" in norm(n.value)]
-    ok = bool(ro) and norm(ro[0].value) == "np.argsort(np.concatenate(slices))"
-    ctx.ob("OWN-3", md, norm(ro[0]) if ro else "restore_indices", ro[0] if ro else md.node, ok,
-           "the inverse permutation of the concatenated group indices restores the original row order" if ok else
-           "grouped modify does not restore the original order with argsort(concatenate(slices))",
-           clause="group-wise results aligned with the original row order")
-    ys = [n for n in body_nodes(md.node) if isinstance(n, ast.Yield) and "restore_indices" in norm(n.value)]
-    ok = bool(ys) and "np.concatenate(column)[restore_indices]" in norm(ys[0].value)
-    ctx.ob("OWN-3", md, norm(ys[0].value) if ys else "yield concatenated[restore]", ys[0] if ys else md.node, ok,
-           "group results are concatenated in group order and permuted back" if ok else "grouped results are not permuted back", nontrivial=False)
-    vr = [c for _, c in calls_in(md) if isinstance(c.func, ast.Attribute) and c.func.attr == "_view_rows"]
-    spc = [c for _, c in calls_in(md) if isinstance(c.func, ast.Attribute) and c.func.attr == "split"]
-    ok = bool(vr) and all(norm(c.func.value) == md.params[0] for c in vr) and bool(spc) and norm(spc[0]) == f"{md.params[0]}.split(*{md.params[0]}._group_colnames)"
-    ctx.ob("IDX-3", md, f"{[norm(c) for c in spc + vr]}", vr[0] if vr else md.node, ok,
-           "original-position index sets from split are applied to the receiver itself" if ok else
-           "grouped modify applies split's index sets to another frame / other keys", clause="grouped modify uses the same partition")
-    bc = [c for _, c in calls_in(md) if "DataFrameColumn" in norm(c.func) and kw(c, "nrow") is not None]
-    ok = bool(bc) and norm(kw(bc[0], "nrow")) == "x.nrow"
-    ctx.ob("IDX-3", md, norm(bc[0]) if bc else "DataFrameColumn(function(x), nrow=x.nrow)", bc[0] if bc else md.node, ok,
-           "a scalar group result is broadcast to its group's size" if ok else "group results are not broadcast to the group's row count", nontrivial=False)
-    # ---------------------------------------------------------------- MPT-3
-    ga = [n for n in body_nodes(ag.node) if isinstance(n, ast.Assign) and is_assign_attr(n, "_group_")]
-    ok = False
-    why = "data._group_ is never assigned"
-    if ga:
-        g = ga[0]
-        facts = facts_at(ag, g)
-        ok = norm(g.value) == "np.repeat(groups, n)" and any(k == "T" and "any(group_aware)" in t for k, t in facts)
-        why = "group ids = repeat(arange(#groups), sizes), assigned whenever a group-aware function is present" if ok else \
-            f"_group_ is {norm(g.value)} under {sorted(facts)}"
-        dg = {norm(n.targets[0]): norm(n.value) for n in body_nodes(ag.node) if isinstance(n, ast.Assign) and norm(n.targets[0]) in ("groups", "n", "group_aware")}
-        ok = ok and dg.get("groups") == "Vector.fast(range(len(indices)), int)" and dg.get("n") == "Vector.fast(map(len, indices), int)"
-        if not ok and "repeat" in why:
-            why = f"group labels / sizes are not derived from the same indices: {dg}"
-        cfg = cfg_of(ag)
-        gn = cfg_node_of(ag, g)
-        calls = [n for n in body_nodes(ag.node) if isinstance(n, ast.Call) and norm(n.func) == "function" and norm(n.args[0]) == "data"]
-        for c in calls:
-            cnode = cfg_node_of(ag, c)
-            f2 = facts_at(ag, c)
-            if not any(k == "T" and "group_aware" in t for k, t in f2):
-                ok, why = False, "a function is called group-wise without being tested for group_aware"
-    ctx.ob("MPT-3", ag, norm(ga[0]) if ga else "data._group_ = ...", ga[0] if ga else ag.node, ok, why,
-           clause="contiguous-run scan in helpers")
-    rep = [n for n in body_nodes(ag.node) if isinstance(n, ast.Assign) and isinstance(n.targets[0], ast.Subscript) and norm(n.value) == "default"]
-    ok = bool(rep) and any(k == "T" and t.endswith("is None") for k, t in facts_at(ag, rep[0])) and \
-        any(norm(n.value) == "function.default" for n in body_nodes(ag.node) if isinstance(n, ast.Assign) and norm(n.targets[0]) == "default")
-    ctx.ob("MPT-3", ag, "None -> function.default", rep[0] if rep else ag.node, ok,
-           "None left by a helper is replaced by that helper's default" if ok else "None results are not replaced by function.default",
-           clause="a group left with fewer elements yields the documented default")
-    rets = [n for n in body_nodes(ag.node) if isinstance(n, ast.Return)]
-    ok = len(rets) == 1 and norm(rets[0].value) == "stat.unselect('_index_', '_group_')"
-    ctx.ob("MPT-3", ag, norm(rets[0].value) if rets else "return", rets[0] if rets else ag.node, ok,
-           "helper columns are removed from the result" if ok else "result still carries (or wrongly removes) helper columns", nontrivial=False)
-    asserts = [n for n in body_nodes(ag.node) if isinstance(n, ast.Assert)]
-    ok = any(norm(a.test) == "len(column) == stat.nrow" for a in asserts)
-    ctx.ob("MPT-3", ag, "assert len(column) == stat.nrow", asserts[0] if asserts else ag.node, ok,
-           "one summary value per group" if ok else "no check that a helper returned one value per group", nontrivial=False)
-    # yield_groups contiguity precondition: group change test
+    # ------------------------------------------------- run scan of kernels
     for kn in ("yield_groups", "yield_groups_numba"):
         k = repo.fn(f"{A.AGG}.{kn}")
-        conts = [n for n in body_nodes(k.node) if isinstance(n, ast.If) and any(isinstance(x, ast.Continue) for x in n.body)]
-        ok = bool(conts) and norm(conts[0].test) == "j < n and group[j] == group[i]"
+        X, G = k.params[0], k.params[1]
         loops = [n for n in body_nodes(k.node) if isinstance(n, ast.For)]
-        ok = ok and bool(loops) and norm(loops[0].iter) == "range(1, n + 1)"
-        sl = [n for n in body_nodes(k.node) if isinstance(n, ast.Assign) and norm(n.value) == "x[i:j]"]
-        adv = [n for n in body_nodes(k.node) if isinstance(n, ast.Assign) and norm(n.targets[0]) == "i" and norm(n.value) == "j"]
-        ok = ok and bool(sl) and bool(adv)
-        ctx.ob("MPT-3", k, "scan: emit x[i:j] whenever group[j] != group[i] or j == n; i = j", conts[0] if conts else k.node, ok,
+        ok = False
+        if loops:
+            l = loops[0]
+            bl = pmatch("range(1, _N + 1)", l.iter)
+            j = text(l.target)
+            conts = [n for n in l.body if isinstance(n, ast.If) and any(isinstance(x, ast.Continue) for x in n.body)]
+            if bl is not None and conts:
+                bc_ = pmatch(f"{j} < _N and {G}[{j}] == {G}[_I]", conts[0].test, {"_N": bl["_N"]})
+                if bc_ is not None:
+                    i = text(bc_["_I"])
+                    sl_ = [n for n in l.body if isinstance(n, ast.Assign) and pmatch(f"{X}[{i}:{j}]", n.value) is not None]
+                    adv = [n for n in l.body if pstmt(f"{i} = {j}", n) is not None]
+                    nlen = any(pstmt(f"_N = len({X})", n, {"_N": bl["_N"]}) is not None for n in body_nodes(k.node))
+                    ok = bool(sl_) and bool(adv) and nlen and sl_[0].lineno < adv[0].lineno
+        ctx.ob("MPT-3", k, "scan: emit x[i:j] whenever group[j] != group[i] or j == n; then i = j", loops[0] if loops else k.node, ok,
                "every maximal run of equal group ids is emitted exactly once, covering all rows" if ok else
                "the run scan no longer emits every maximal run x[i:j] (rows are lost or merged)", clause="group sizes sum to nrow")
     # ---------------------------------------------------------------- OWN-3
@@ -204,29 +252,35 @@ def check(ctx):
     bad = [ev for ev in summ.events if ev.kind == "attr-store" and ev.detail == "._group_colnames" and ours(ev.target.alias)]
     gb = [c for _, c in calls_in(cn) if isinstance(c.func, ast.Attribute) and c.func.attr == "group_by"]
     ok = not bad and bool(gb)
-    ctx.ob("OWN-3", cn, norm(gb[0]) if gb else "count", gb[0] if gb else cn.node, ok,
+    ctx.ob("OWN-3", cn, text(gb[0]) if gb else "count", gb[0] if gb else cn.node, ok,
            "count groups a copy of the receiver" if ok else "count regroups the receiver itself: the caller's frame stays grouped",
            clause="count uses the same partition")
-    ok = bool(gb) and [norm(a) for a in gb[0].args] == [f"*{cn.vararg}"] and any(
-        isinstance(c.func, ast.Attribute) and c.func.attr == "aggregate" and "count()" in norm(c) for _, c in calls_in(cn))
+    ok = bool(gb) and [text(a) for a in gb[0].args] == [f"*{cn.vararg}"] and any(
+        isinstance(c.func, ast.Attribute) and c.func.attr == "aggregate" and len(c.keywords) == 1 and
+        repo.dotted(cn, c.keywords[0].value.func if isinstance(c.keywords[0].value, ast.Call) else c.keywords[0].value) == "dataiter.aggregate.count"
+        for _, c in calls_in(cn))
     ctx.ob("OWN-3", cn, "group_by(*colnames).aggregate(n=count())", cn.node, ok, "count is aggregate with the count helper over the given keys" if ok else
            "count is not group_by(*colnames).aggregate(n=count())", nontrivial=False)
     # ------------------------------------------------- GRD-sentinel / empty
     uq = repo.fn(f"{DF}.unique")
     reps = [c for _, c in calls_in(uq) if isinstance(c.func, ast.Attribute) and c.func.attr == "replace_na"]
-    apps = [c for _, c in calls_in(uq) if isinstance(c.func, ast.Attribute) and c.func.attr == "append" and norm(c.func.value) == "columns"]
-    ok = bool(reps) and bool(apps)
-    per_col = ok
-    if ok:
-        # the appended mask is the mask of the very column being replaced, inside the same loop iteration
-        a = apps[0]
-        argn = norm(a.args[0]) if a.args else ""
-        defs = [d for d in defs_reaching(uq, argn, a)] if argn.isidentifier() else []
-        per_col = any(d.value is not None and norm(d.value) == "column.is_na()" for d in defs)
-        loop_a = _loop_of(uq, a)
-        loop_r = _loop_of(uq, reps[0])
-        per_col = per_col and loop_a is not None and loop_a is loop_r
-    ctx.ob("GRD-sentinel", uq, "each replaced key column contributes its own NA mask as a key component", apps[0] if apps else uq.node, per_col,
+    per_col = False
+    for rc in reps:
+        colexpr = rc.func.value
+        loop = _loop_of(uq, rc)
+        if loop is None:
+            continue
+        # inside the same loop iteration the mask of that very column is appended to the key components
+        for c in [n for n in ast.walk(loop) if isinstance(n, ast.Call) and isinstance(n.func, ast.Attribute) and n.func.attr in ("append", "extend")]:
+            a = c.args[0] if c.args else None
+            exprs = [a]
+            if isinstance(a, ast.Name):
+                exprs = [d.value for d in defs_reaching(uq, a.id, c) if d.value is not None]
+            if exprs and all(pmatch("_C.is_na()", x, {"_C": colexpr}) is not None for x in exprs):
+                zipped = [z for _, z in calls_in(uq) if isinstance(z.func, ast.Name) and z.func.id == "zip"]
+                if any(text(c.func.value) in text(z) for z in zipped):
+                    per_col = True
+    ctx.ob("GRD-sentinel", uq, "each replaced key column contributes its own NA mask as a key component", reps[0] if reps else uq.node, per_col,
            "a missing value forms a group of its own per key column" if per_col else
            "the NA masks are not added per replaced column (e.g. combined into one): keys differing only in WHICH column is missing "
            "are merged into one group", clause="a missing value forming a group of its own")
